@@ -144,7 +144,7 @@ QTab(O, q) == CASE q.fn = "trp"  -> TRP_Table(O, q)
 \* presence relation and the stream observed in the same line
 StepStats ==
   /\ Line.op = "stats"
-  /\ fails' = fails \cup { <<l, x[1], x[2]>> : x \in NotOk(StatsTable(Line.obs, Line.es)) }
+  /\ fails' = fails \cup { <<l, x[1], x[2]>> : x \in NotOk(StatsTableR(Line.obs, Line.es, R.rem)) }
   /\ UNCHANGED <<R, T, rej, prevO>>
 
 \* C19: one call of the inherited / blocked API on a copy of the current object
